@@ -2,7 +2,7 @@ SPEC = dict(
     props_file="Props/C25.v",
     level="proof",
     observers=[dict(cmd="obs_dedicated", imports=["Model.PsBase", "Model.Dedicated"], case_type="Dedicated.case", check="Dedicated.check_case",
-                    n={"quick": 120, "thorough": 3000}, shard=30, timeout={"quick": 900, "thorough": 6000})],
+                    n={"quick": 100, "thorough": 3000}, shard=30, timeout={"quick": 900, "thorough": 6000})],
     search_factor=3,
     rule="generated programs over one client: up to 4 dedicated sessions (Dedicate) whose operations interleave in program order "
          "(SET, WATCH + MULTI/INCR/EXEC, SUBSCRIBE, CLIENT TRACKING ON, SetPubSubHooks, SetOnInvalidations, an abandoned blocking "
